@@ -1000,7 +1000,9 @@ def jobs_C15(rng, tier):
         fam = rng.choice(fams)
         xs = gen.stream(rng, fam, rng.randint(1, 40), 3, positive=pos)
         if ("drawdown" in names or "lnret" in names or "div" in names) and len(names) > 2:
-            js.append(Corr(e, "f", ops_for(xs), "pattern", both_builds=True))   # inner outputs may leave the domain: compare with the model
+            # inner outputs may leave the domain: compare with the model (where the finiteness assertion fires because of an
+            # inner view's rounding residue the comparison is inconclusive: harmless rewrite H03)
+            js.append(Corr(e, "f", ops_for(xs), "pattern", both_builds=True, risky=True))
         else:
             js.append(NoPanic(e, "f", ops_for(xs)))
     return js
@@ -1529,8 +1531,16 @@ def jobs_C18(rng, tier):
                 if L >= 4 * gen.window_of(e) + 16:
                     js.append(Heap(e, L, rng.randrange(10 ** 9)))
     for _ in range(scale_n(tier, 60, 500)):
+        # (trees in which no node can leave its domain: a 0/0 or ln(0) deep inside a chain is a NaN in the release build, and
+        # what a view does with NaN input is outside every property — harmless rewrite H02, a monotonic deque under Min, keeps
+        # NaNs for ever)
         e = gen.gen_tree(rng, rng.randint(2, 3), False)
-        js.append(Heap(e, Ls[0], rng.randrange(10 ** 9)))
+        for _try in range(50):
+            if gen.domain_safe(e):
+                break
+            e = gen.gen_tree(rng, rng.randint(2, 3), False)
+        if gen.domain_safe(e):
+            js.append(Heap(e, Ls[0], rng.randrange(10 ** 9)))
     return js
 
 
@@ -1725,7 +1735,10 @@ def augment_jobs(js, rng, pid, tier):
                     [bits((rng.randint(1, 9) if pos else rng.randint(-9, 9)) * 5e-324 * rng.choice([1, 1, 1000, 2 ** 40])) for _ in range(K)],
                     [bits((rng.randint(1, 3) if pos else rng.choice([-3, -2, -1, 1, 2, 3])) * 2.0 ** 1019) for _ in range(K)]]
         for sp in variants:
-            extra.append(Corr(e, "f", ["X " + b for b in sp], "rel", scale=1.0, both_builds=True, n=n))
+            # informational: extreme magnitudes are outside every property's domain ("moderate magnitude", "bounded dynamic
+            # range"), and an equally valid re-association may answer differently there (harmless rewrite H03: 0.707 vs 0 on the
+            # window 1, 2^53, -0, 5e-324) — differences are counted in the evidence, not reported
+            extra.append(Corr(e, "f", ["X " + b for b in sp], "rel", scale=1.0, both_builds=True, n=n, info=True))
         # the same view at both float types
         # (not the views whose running sums are ill-conditioned at f32 even on short streams: Welford family, CTI, Alma with a
         # small offset — K4/K5-class findings, measured under C16)
@@ -1793,7 +1806,7 @@ def search_phase(pid, seed, tier, focus, everything, known, budget_s):
             res = run_jobs(js[i:i + 300])
             stats["jobs"] += len(res)
             for j, f in res:
-                if f is None or any(finding_matches(kk, j, f) for kk in known):
+                if f is None or getattr(j, "info", False) or any(finding_matches(kk, j, f) for kk in known):
                     continue
                 if f.get("corr_only"):
                     stats["corr_failures"] += 1
@@ -1881,6 +1894,7 @@ def check_property(pid, tier, seed, do_lean=True, write_evidence=True):
             extra_failures.append("source audit: " + "; ".join(bad))
     nontrivial = set()
     bit = lines = 0
+    info_differences = 0
     kinds = collections.Counter()
     fams = collections.Counter()
     views = collections.Counter()
@@ -1899,6 +1913,9 @@ def check_property(pid, tier, seed, do_lean=True, write_evidence=True):
         if isinstance(j, Corr):
             bit += getattr(j, "bit", 0); lines += getattr(j, "lines", 0)
         if f is None:
+            continue
+        if getattr(j, "info", False):
+            info_differences += 1
             continue
         if os.environ.get("VERIF_DEBUG"):
             log("FAIL", j.kind, json.dumps(j.to_json())[:300], "::", f["explanation"][:300], "exp", str(f.get("expected"))[:80], "act", str(f.get("actual"))[:80])
@@ -1986,6 +2003,7 @@ def check_property(pid, tier, seed, do_lean=True, write_evidence=True):
         job_kinds=dict(kinds), views=dict(views), samples=samples,
         known_findings_replayed=len(known_lines), failures_matching_known_findings=len(known_hits),
         implementation_line_coverage=impl_cov,
+        differences_on_out_of_domain_inputs_recorded_not_reported=info_differences,
         exhaustive_small_scope=dict(cases=sum(1 for j, f in results if getattr(j, "small_scope", False)), exhaustive=True,
                                     rule="every stream of length 6 (8 in the thorough tier; 5 / 6 for the transcendental recursive filters of C11) over a three-letter alphabet {0, 1, -2} ({1/2, 1, 3} for "
                                          "positive-domain views), window lengths 1, 2, 3, for each view that has a batch definition in this "
